@@ -86,7 +86,7 @@ pub fn fuzz_targets(id: &str) -> Vec<(&'static str, &'static str, u64)> {
     match id {
         "C02" => vec![("swapstep", "step", 30_000_000)],
         "C12" => vec![("pinodiff", "modify_liquidity", 6_000_000)],
-        "C13" => vec![("dyntick", "random_sequences", 1_500_000)],
+        "C13" => vec![("dyntick", "random_sequences", 600_000)],
         "C16" => vec![("tlvfee", "fee_functions", 10_000_000)],
         "C19" => vec![("mintadmit", "mints", 400_000)],
         "C20" => vec![("sdkmath", "math_functions", 24_000_000)],
@@ -98,6 +98,8 @@ pub enum FuzzOutcome {
     Clean { executions: u64, corpus: u64, features: u64, wall_s: f64 },
     Violation(PathBuf),
     Unavailable(String),
+    /// a fuzzing job hit libFuzzer's own per-unit time or memory limit: the campaign is cut short, the oracle reported nothing
+    Incomplete { why: String, executions: u64 },
 }
 
 /// One libFuzzer campaign with a fixed number of executions, split over `ctx.threads` jobs.
@@ -126,7 +128,7 @@ pub fn run_fuzz(ctx: &Ctx, target: &str, runs: u64) -> FuzzOutcome {
         .arg(format!("-seed={seed}"))
         .arg(format!("-jobs={jobs}"))
         .arg(format!("-workers={jobs}"))
-        .args(["-len_control=0", "-max_len=2048", "-print_final_stats=1", "-timeout=60", "-rss_limit_mb=4096"])
+        .args(["-len_control=0", "-max_len=2048", "-print_final_stats=1", "-timeout=600", "-rss_limit_mb=4096"])
         .current_dir(&fdir)
         .env("CARGO_NET_OFFLINE", "true")
         .env("VERIF_ROOT", &root)
@@ -164,6 +166,11 @@ pub fn run_fuzz(ctx: &Ctx, target: &str, runs: u64) -> FuzzOutcome {
         if let Some(p) = line.split("replay=").nth(1) {
             return FuzzOutcome::Violation(PathBuf::from(p.trim()));
         }
+    }
+    if !out.status.success() && (text.contains("libFuzzer: timeout") || text.contains("libFuzzer: out-of-memory")) {
+        let executions = text.lines().filter(|l| l.contains("stat::number_of_executed_units:")).filter_map(|l| l.split_whitespace().last().and_then(|x| x.parse::<u64>().ok())).sum();
+        let why = text.lines().find(|l| l.contains("libFuzzer: timeout") || l.contains("libFuzzer: out-of-memory")).unwrap_or("").trim().to_string();
+        return FuzzOutcome::Incomplete { why, executions };
     }
     if !out.status.success() {
         // a crash without an oracle message (sanitizer report, timeout, OOM): inconclusive for the property, reported as such
@@ -288,6 +295,12 @@ pub fn run_check(ctx: &Ctx, replay: Option<&str>, only: Option<&str>) -> i32 {
                     outln!("violation found by fuzz target {target}");
                     violation = Some(p);
                     break;
+                }
+                FuzzOutcome::Incomplete { why, executions } => {
+                    // a slow or memory-hungry unit under the sanitizer build says nothing about the property; the generated-input tier above
+                    // has decided, the coverage-guided campaign is reported as cut short
+                    eprintln!("[{}] fuzz/{target}: cut short after {executions} executions of the finished jobs ({why})", def.id);
+                    fuzz_report.push(json!({"target": target, "oracle_of_sub_check": subn, "cut_short": why, "executions_of_finished_jobs": executions}));
                 }
                 FuzzOutcome::Unavailable(why) => {
                     eprintln!("[{}] fuzz/{target}: {why}", def.id);
